@@ -329,12 +329,12 @@ pub fn run(rep: &mut Report, cli: &Cli) {
     let depth = if th { 6 } else { 5 };
     let o = e2::explore(rep, "stake / unstake histories through the liquidity-provider program", &m, vec![start], &e2::Config { depth, max_states: 3_000_000 }, json!({"machine": "lp"}));
     for k in ["Stake:ok", "Unstake:ok", "Unstake:err", "UnstakeByStranger:err", "Dust:env"] {
-        if o.histogram.get(k).copied().unwrap_or(0) == 0 {
+        if o.histogram.get(k).copied().unwrap_or(0) == 0 && rep.violations_total() == 0 {
             rep.machinery(format!("vacuous staking exploration: outcome {k} never occurred"));
         }
     }
     for k in ["full_exits", "partial_unstakes", "full_exits_with_dust_in_the_vault", "full_exits_forced_by_the_minimum_stake_value", "unstakes_that_minted_gt"] {
-        if o.counters.get(k).copied().unwrap_or(0) == 0 {
+        if o.counters.get(k).copied().unwrap_or(0) == 0 && rep.violations_total() == 0 {
             rep.machinery(format!("vacuous staking exploration: {k} never occurred"));
         }
     }
